@@ -18,6 +18,9 @@ import (
 	"sort"
 	"strings"
 
+	"github.com/b2broker/simplefix-go/generator"
+	"github.com/b2broker/simplefix-go/utils"
+
 	"verifharness/internal/rng"
 )
 
@@ -240,6 +243,7 @@ func main() {
 
 	id := 0
 	fatSize := 0
+	inproc := 0  // cases generated in-process so far
 	fatPkg := "" // the first package generated in this run; later cases are also regenerated over a copy of it
 	for _, sc := range cases {
 		id++
@@ -315,6 +319,26 @@ func main() {
 						_ = os.RemoveAll(filepath.Join(dir, "rel-out"))
 					}
 					_ = os.RemoveAll(filepath.Join(dir, "again"))
+					// the library used the way a build tool uses it: the schema parsed once, generated into
+					// two directories in one process; both are what the command-line run produced
+					if inproc < 6 {
+						inproc++
+						rec.Tags = append(rec.Tags, "in-process-twice")
+						da, db := filepath.Join(dir, "inproc-a", "fixpkg"), filepath.Join(dir, "inproc-b", "fixpkg")
+						if m5 := generateTwiceInProcess(sx, tx, da, db); m5 != "" {
+							rec.Oracle["C12"] = "fail: the schema parsed once and generated twice in one process: " + m5
+						} else {
+							for _, dd := range []string{da, db} {
+								c5, _ := dirDigest(dd)
+								if df := diffDigests(a, c5, false); len(df) > 0 {
+									rec.Oracle["C12"] = "fail: generated in-process from the schema parsed once (" + filepath.Base(filepath.Dir(dd)) + "), the package differs from the command-line run: " + strings.Join(df, ", ")
+									break
+								}
+							}
+						}
+						_ = os.RemoveAll(filepath.Join(dir, "inproc-a"))
+						_ = os.RemoveAll(filepath.Join(dir, "inproc-b"))
+					}
 					// regeneration into a directory that already holds a generated package (the first
 					// package of this run): every file the generator writes is what a fresh directory gets
 					size := 0
@@ -413,6 +437,33 @@ func main() {
 		_ = os.RemoveAll(dir)
 		emit(rec)
 	}
+}
+
+// generateTwiceInProcess parses the schema and the type mapping once and runs the generator on the
+// parsed objects twice, into two directories of the same base name; "" when both runs succeeded.
+func generateTwiceInProcess(schema, types, dirA, dirB string) (msg string) {
+	defer func() {
+		if e := recover(); e != nil {
+			msg = fmt.Sprintf("panic: %v", e)
+		}
+	}()
+	doc := &generator.Doc{}
+	if err := utils.ParseXML(schema, doc); err != nil {
+		return "schema: " + err.Error()
+	}
+	config := &generator.Config{}
+	if err := utils.ParseXML(types, config); err != nil {
+		return "types: " + err.Error()
+	}
+	for k, d := range []string{dirA, dirB} {
+		if err := os.MkdirAll(d, 0o755); err != nil {
+			return err.Error()
+		}
+		if err := generator.NewGenerator(doc, config, filepath.Base(d)).Execute(d); err != nil {
+			return fmt.Sprintf("run %d failed: %v", k+1, err)
+		}
+	}
+	return ""
 }
 
 func copyDir(from, to string) error {
